@@ -42,6 +42,10 @@ type Call struct {
 	Max   int    `json:"max,omitempty"`
 	// Concurrent with the next call.
 	Join bool `json:"join,omitempty"`
+	// Flap > 0: before the call, peer (Flap-1) mod #peers closes its
+	// connection; the client dials it again (same address) and the call is
+	// made after that.
+	Flap int `json:"flap,omitempty"`
 }
 
 type Case struct {
@@ -102,6 +106,9 @@ func genCase(filters bool) func(t *rapid.T) Case {
 			// queues the waiters on a channel, so concurrent callers
 			// are generated for both calls.
 			cl.Join = kit.Uni(t, "join", 4) == 0
+			if kit.Uni(t, "flapp", 5) == 0 {
+				cl.Flap = 1 + kit.Uni(t, "flap", np)
+			}
 			return cl
 		})
 		c.Calls = rapid.SliceOfN(callGen, 1, 6).Draw(t, "calls")
@@ -356,6 +363,17 @@ func runC05(t *testing.T, c Case) kit.Verdict {
 				j++
 			}
 			group := c.Calls[i : j+1]
+			if f := group[0].Flap; f > 0 {
+				fp := s.Peers[(f-1)%len(s.Peers)]
+				was := fp.Connected()
+				fp.Disconnect()
+				if !s.Settle() || !s.Advance(12*time.Second) || !s.Settle() {
+					return
+				}
+				if was && fp.Connected() {
+					v.Class("flap:peer-reconnected-before-call")
+				}
+			}
 			results := make([]*result, len(group))
 			var wg sync.WaitGroup
 			for gi, cl := range group {
@@ -702,6 +720,17 @@ func runC06(t *testing.T, c Case) kit.Verdict {
 				j++
 			}
 			group := c.Calls[i : j+1]
+			if f := group[0].Flap; f > 0 {
+				fp := s.Peers[(f-1)%len(s.Peers)]
+				was := fp.Connected()
+				fp.Disconnect()
+				if !s.Settle() || !s.Advance(12*time.Second) || !s.Settle() {
+					return
+				}
+				if was && fp.Connected() {
+					v.Class("flap:peer-reconnected-before-call")
+				}
+			}
 			results := make([]*result, len(group))
 			var wg sync.WaitGroup
 			for gi, cl := range group {
